@@ -3,7 +3,7 @@ FRAGMENT = {
  'C13': {'bin': 'w_c13',
  'world': 'c13',
  'level': 'exploration',
- 'quick': {'runs': 100000, 'budget_s': 35, 'workers': 16},
+ 'quick': {'runs': 300000, 'budget_s': 35, 'workers': 16},
  'thorough': {'runs': 2000000, 'budget_s': 600, 'workers': 16, 'det_sample': 200},
  'level_text': 'seeded exploration of reception histories: carrier tasks (VPS, 8/30 format 1, 8/30 format 2, WSS-625; or XDS network name / call '
                'letter packets in 525-line runs) interleaved line by line into frames by the seeded scheduler x station scripts over unambiguous rows '
